@@ -423,5 +423,9 @@ func runC11(args []string) error {
 	}
 	sum.CasesFiles = append(names, hnames...)
 	runC11Forwarding(sum)
+	if err := runC11Applied(sum); err != nil {
+		return err
+	}
+	runC11ManyTables(sum)
 	return sum.write(rf.Out, "c11")
 }
